@@ -897,6 +897,14 @@ def r4(ctx: Ctx) -> None:
             w = find_path(ig, s.id, [y.id], avoid=[x.id for x in ifilt], labels=NORMAL, edge_ok=lambda s_, d, l: (s_, d) not in inone_false)
         ctx.ob("C12.R4", it, "every yielded batch is filtered when an expression exists", y, bool(ifilt) and bool(starts) and w is None,
                "batch APIs apply the same expression", witness=ctx.path_witness(it, w))
+    # every batch of every file is visited: the per-batch / per-file loops are left only when they are exhausted (or by an error)
+    from .common import loop_early_exits
+    for lp_ in [l_ for l_ in ig.nodes if l_.kind == "loop" and isinstance(l_.ast, ast.For) and l_.id in ig.reachable()]:
+        ex_ = loop_early_exits(ig, lp_)
+        ctx.ob("C12.R4", it, "the batch / file loop runs to exhaustion", lp_, not ex_,
+               f"`{lp_.text[:60]}`" + (f" is left early at {it.file}:{ig.nodes[ex_[0][0]].lineno} `{ig.nodes[ex_[0][0]].text[:50]}`: the remaining "
+                                      "batches (files) are never read - rows that match the filter are missing from this API only" if ex_ else
+                                      " ends only when exhausted"), text=norm_text(lp_.ast.iter)[:40])  # type: ignore[union-attr]
     ib = [n for n in ig.calls() if n.callee and n.callee.name.endswith("iter_batches")]
     rcv = {norm_text(kwarg(n.ast, "columns")) for n in ib if kwarg(n.ast, "columns") is not None}
     rc = [n for n in ig.nodes if n.kind == "stmt" and isinstance(n.ast, ast.Assign) and any(isinstance(t, ast.Name) and t.id in rcv for t in n.ast.targets)]
